@@ -2,6 +2,7 @@
      T <throws> V<n> (k v)* <app> Q <query>*          application tree + queries
      G <n> (<mp> <app>)*n Q <query>*                  mounted pools + request queries
      S <throws> V<n> (k v)* <site> Q <query>*         (abstract only) site; prepared into a T line
+     W N<n> (<pat> <rewrite pattern hex> <final>)*n Q <url hex>*     url_rewriter rules + urls
    Patterns are "<hex of pattern text>:<ast>" (concrete) or "<ast>" (abstract).  With --prepare the
    driver reads abstract lines and prints the concrete lines, the pattern / template texts being
    produced by the verified printers (rprint, route_template, build). *)
@@ -210,6 +211,19 @@ let eval_line (ts : string list) : string =
         done;
         String.concat " | " (List.rev !out)
       end
+  | "W" ->
+      let n = counted 'N' in
+      let rules = times n (fun () -> let p = pat_tok () in let pat = hexb () in let fin = next () = "1" in (p, pat, fin)) in
+      expect "Q";
+      if !mismatch then "PRINT-MISMATCH" else begin
+        let rs = List.map (fun (p, pat, fin) -> mk_rule p pat fin) rules in
+        if List.exists (fun r -> r = None) rs then "CONSTRUCT-ERROR" else begin
+          let rs = List.map (function Some r -> r | None -> bad "rule") rs in
+          let out = ref [] in
+          while !toks <> [] do out := hex_of_bytes (rw_apply rs (hexb ())) :: !out done;
+          String.concat " | " (List.rev !out)
+        end
+      end
   | _ -> bad "case kind"
 
 let prepare_line (ts : string list) : string =
@@ -226,6 +240,11 @@ let prepare_line (ts : string list) : string =
       let pools = times n (fun () -> let mp = rd_mp () in let a = rd_app () in (mp, a)) in
       expect "Q";
       String.concat " " (["G"; Printf.sprintf "N%d" n] @ List.map (fun (mp, a) -> wr_mp mp ^ " " ^ wr_app a) pools @ ["Q"] @ !toks)
+  | "W" ->
+      let n = counted 'N' in
+      let rules = times n (fun () -> let (_, p) = rd_pat (next ()) in let pat = next () in let fin = next () in (p, pat, fin)) in
+      expect "Q";
+      String.concat " " (["W"; Printf.sprintf "N%d" n] @ List.map (fun (p, pat, fin) -> wr_pat p ^ " " ^ pat ^ " " ^ fin) rules @ ["Q"] @ !toks)
   | _ -> bad "case kind"
 
 let () =
